@@ -233,6 +233,28 @@ func runSess(cfg *config) {
 			}
 		}
 	}
+	// scripted: every kind of statement after a refused USE / CREATE DATABASE, with and without a
+	// database selected before it - the session must stay usable and on the database it was on
+	for _, selected := range []bool{false, true} {
+		for _, stmt := range []string{"SELECT * FROM t1", "INSERT INTO t1 VALUES (5, 'five')", "UPDATE t1 SET b = 'x' WHERE a = 1",
+			"DELETE FROM t1 WHERE a = 1", "CREATE TABLE t2 (a int)", "SHOW DATABASES", "SELECT 1"} {
+			selected, stmt := selected, stmt
+			run(func(d *sdrv, r *hx.Rng) {
+				d.exec("CREATE DATABASE d1")
+				if selected {
+					d.exec("USE d1")
+					d.exec("CREATE TABLE t1 (a int, b varchar(255))")
+					d.exec("INSERT INTO t1 VALUES (1, 'one')")
+				}
+				d.exec("USE nosuchdb")
+				d.exec(stmt)
+				d.exec("CREATE DATABASE D1")
+				d.exec(stmt)
+				d.exec("USE d1")
+				d.exec("INSERT INTO t1 VALUES (2, 'two')")
+			}, nil)
+		}
+	}
 	n := 6 * cfg.scale
 	for i := 0; i < n; i++ {
 		run(func(d *sdrv, r *hx.Rng) {
